@@ -48,6 +48,11 @@ def ob_broadcast_unfiltered(run, o):
 
 
 def check(run):
+    # "all of them pass validation at a receiver": the certificates in the bundle are the ones the pool created / admitted - created only
+    # behind their quorum predicate over the right stake counters and aggregated from exactly the stored votes of their kind
+    from . import C03 as _C03
+    _C03.ob_thresholds_creation(run, "O18.8a")
+    _C03.ob_inputs(run, "O18.8b")
     from . import detectors as _DL
     _DL.ob_loop_exits(run, "O18.7", ['consensus::pool', 'consensus::votor'], 'the recovery bundle contains every certificate and vote and each is re-broadcast: a loop that stops early sends a partial bundle')
     # "a node that receives only this bundle reaches ... the same ready parents for the following window": the receiver's ready
